@@ -13,6 +13,8 @@
  R5 errors        : every error list built by sanity_check / parse_excel reaches a raise NetworkTopologyError;
                     duplicate cities raise.
  R6 rows          : every non-empty row of a sheet is parsed (an empty row is skipped, it does not end the sheet).
+ R7 node types    : parse_excel's node-type gate is exact and every later comparison of node_type uses a type the gate produces.
+ R8 cable names   : names embedding a fibre direction pair from->to with the east cable id and to->from with the west one.
 """
 import ast
 import re
@@ -356,5 +358,90 @@ def r6_rows(ctx):
     ctx.need('R6.rows', 2)
 
 
+def r7_node_types(ctx):
+    """R7: the node-type gate and its consumers agree: parse_excel maps every type that is not EXACTLY one of the known upper-case
+    types to the default, and every later comparison of node_type (exact, or case-folded) uses one of those types - so an
+    exact comparison (sanity_check) and a case-folded one (export) classify every accepted row the same way"""
+    from ..pattern import find
+    repo = ctx.repo
+    pe = repo.func(CV, 'parse_excel')
+    gates = []
+    for n in walk_no_nested(pe.node):
+        if isinstance(n, ast.If) and isinstance(n.test, ast.Compare) and len(n.test.ops) == 1 and isinstance(n.test.ops[0], ast.NotIn) and \
+                'node_type' in ast.unparse(n.test.left):
+            gates.append(n)
+    ok = len(gates) == 1
+    allowed = set()
+    if ok:
+        g = gates[0]
+        raw = isinstance(g.test.left, ast.Attribute) and g.test.left.attr == 'node_type'
+        st = g.test.comparators[0]
+        lit = st if isinstance(st, (ast.Set, ast.List, ast.Tuple)) else next(
+            (v for _, v in local_defs(pe.node).get(getattr(st, 'id', ''), []) if isinstance(v, (ast.Set, ast.List, ast.Tuple))), None)
+        allowed = {e.value for e in lit.elts if isinstance(e, ast.Constant)} if lit is not None else set()
+        dflt = [a for a in g.body if isinstance(a, ast.Assign) and isinstance(a.targets[0], ast.Attribute) and a.targets[0].attr == 'node_type'
+                and isinstance(a.value, ast.Constant)]
+        ok = raw and bool(allowed) and len(dflt) == 1 and dflt[0].value.value in allowed and all(x == x.upper() for x in allowed)
+    ctx.check('R7.node-types', f'{site(pe)} gate', ok, key(pe, 'gate'),
+              'parse_excel does not replace every node type that is not exactly one of the known upper-case types by the default: a '
+              'type in another spelling would pass the gate and be classified differently by exact and case-folded comparisons downstream',
+              ast.unparse(gates[0].test) if gates else '')
+    n = 0
+    for f in repo.all_funcs():
+        if f.module.name != CV:
+            continue
+        for c in ast.walk(f.node):
+            if not (isinstance(c, ast.Compare) and len(c.ops) == 1 and isinstance(c.ops[0], (ast.Eq, ast.NotEq, ast.In, ast.NotIn))):
+                continue
+            left = c.left
+            folded = isinstance(left, ast.Call) and isinstance(left.func, ast.Attribute) and left.func.attr in ('lower', 'upper') and \
+                isinstance(left.func.value, ast.Attribute) and left.func.value.attr == 'node_type'
+            exact = isinstance(left, ast.Attribute) and left.attr == 'node_type'
+            if not (folded or exact) or (f is pe and gates and c is gates[0].test):
+                continue
+            lits = [x.value for x in ast.walk(c.comparators[0]) if isinstance(x, ast.Constant) and isinstance(x.value, str)]
+            if not lits:
+                continue
+            n += 1
+            if exact:
+                good = all(x in allowed for x in lits)
+            else:
+                good = all(x.upper() in allowed for x in lits)
+            ctx.check('R7.node-types', f'{site(f, c)} {ast.unparse(c)[:50]}', good and bool(allowed), f'{f.qual}|node-type|{ast.unparse(c)[:50]}',
+                      f'node_type is compared with {lits}, which the gate of parse_excel does not produce ({sorted(allowed)})')
+    ctx.need('R7.node-types', 15)
+
+
+def r8_cable_names(ctx):
+    """R8: element names that embed a fibre direction and a cable id pair them like the fibre builders do: the fibre travelling
+    from_city -> to_city carries the EAST cable id, the one travelling to_city -> from_city the WEST one (route lists of the
+    service sheet are matched to elements through these names)"""
+    repo = ctx.repo
+    n = 0
+    for f in repo.all_funcs():
+        if f.module.name != CV:
+            continue
+        for js in [x for x in ast.walk(f.node) if isinstance(x, ast.JoinedStr)]:
+            parts = js.values
+            # ... ({A} -> {B})-{cable}
+            for i in range(len(parts) - 4):
+                a, arrow, b, close, cab = parts[i:i + 5]
+                if not (isinstance(a, ast.FormattedValue) and isinstance(b, ast.FormattedValue) and isinstance(cab, ast.FormattedValue) and
+                        isinstance(arrow, ast.Constant) and '\u2192' in str(arrow.value) and isinstance(close, ast.Constant) and
+                        str(close.value).startswith(')-')):
+                    continue
+                av, bv, cv = (x.value for x in (a, b, cab))
+                if not all(isinstance(x, ast.Attribute) for x in (av, bv, cv)) or not cv.attr.endswith('_cable'):
+                    continue
+                n += 1
+                want = 'east_cable' if (av.attr, bv.attr) == ('from_city', 'to_city') else ('west_cable' if (av.attr, bv.attr) == ('to_city', 'from_city') else None)
+                ctx.check('R8.cable-names', f'{site(f, js)} ({av.attr} -> {bv.attr})', want is not None and cv.attr == want,
+                          f'{f.qual}|cable|{av.attr}>{bv.attr}|{ast.unparse(js)[:40]}',
+                          f'a name pairs the direction {av.attr} -> {bv.attr} with {cv.attr}; the fibre of that direction carries {want}: '
+                          'with different east / west cable ids the element would not be found by name (a route hop silently dropped)',
+                          ast.unparse(js)[:140])
+    ctx.need('R8.cable-names', 8)
+
+
 RULES = [('R1.headers', r1_headers), ('R2.mirrors', r2_mirrors), ('R3.defaulting', r3_defaulting), ('R4.units', r4_units),
-         ('R5.errors', r5_errors), ('R6.rows', r6_rows)]
+         ('R5.errors', r5_errors), ('R6.rows', r6_rows), ('R7.node-types', r7_node_types), ('R8.cable-names', r8_cable_names)]
